@@ -185,6 +185,8 @@ def missing_target_actions(node: str):
         ("host-nic-disable", {"node_name": node, "nic_num": 7}),
         ("node-shutdown", {"node_name": "no-such-node"}),
         ("node-file-delete", {"node_name": node, "folder_name": "nofolder", "file_name": "nofile"}),
+        ("host-nic-disable", {"node_name": node, "nic_num": 0}),  # falsy but well-formed parameter: interfaces count from 1
+        ("host-nic-enable", {"node_name": node, "nic_num": 0}),
     ]
 
 
@@ -212,6 +214,7 @@ def mini_scenario(
     action_masking: bool = True,
     flatten_obs: bool = False,
     extra_actions=(),
+    action_order: str = "asc",
     with_green: bool = True,
     with_red: bool = True,
     seed: int = 3,
@@ -292,6 +295,12 @@ def mini_scenario(
         acts += router_actions("router_1")
     acts += list(extra_actions)
     action_map = {i: {"action": a, "options": o} for i, (a, o) in enumerate(acts)}
+    if action_order == "desc":  # same numbering, listed in another order (legal: the schema only wants every number present)
+        action_map = dict(sorted(action_map.items(), key=lambda kv: -kv[0]))
+    elif action_order == "shuffled":
+        keys = list(action_map)
+        keys = keys[1::2] + keys[0::2]
+        action_map = {k: action_map[k] for k in keys}
 
     obs_hosts = [
         {"hostname": "client_1", "services": [{"service_name": "dns-client"}], "applications": [{"application_name": "web-browser"}], "folders": [{"folder_name": "docs", "files": [{"file_name": "a.txt"}]}]},
